@@ -105,6 +105,7 @@ def c15_rf19(run):
     rf_tables.rf169(run)
     rf_tables.rf184(run)
     rf_tables.rf195(run)
+    rf_tables.rf201(run)
 
 
 def c15_rf16h(run):
